@@ -123,6 +123,15 @@ func (mc *Metacontroller) Reconcile(ctx context.Context, request reconcile.Reque
 		return reconcile.Result{}, err
 	}
 
+	// An instance started from an earlier spec of this CompositeController must
+	// not keep running with a configuration that no longer exists, whatever
+	// becomes of the new one below (several checks return early).
+	if pc, ok := mc.parentControllers[compositeControllerName]; ok && !apiequality.Semantic.DeepEqual(cc.Spec, pc.cc.Spec) {
+		pc.Stop()
+		mc.eventRecorder.Eventf(&cc, v1.EventTypeNormal, events.ReasonStopped, "Stopped controller: %s", cc.Name)
+		delete(mc.parentControllers, compositeControllerName)
+	}
+
 	groupVersion, err := schema.ParseGroupVersion(cc.Spec.ParentResource.APIVersion)
 	if err != nil {
 		return reconcile.Result{}, err
